@@ -129,7 +129,7 @@ def run_verus_units(pid, unit_names, out, tier, variants=None):
             out.undecided.append(f'unit {uname}: {res.undecided}')
         for pc in tagged:
             if pc.contract.get('external_body'):
-                out.assumptions.append(f'[{uname}] {pc.name} ({pc.origin}): contract ASSUMED, body not verified: ' + '; '.join(pc.contract.get('ensures') or []) + (' -- ' + pc.contract['note'] if pc.contract.get('note') else ''))
+                out.assumptions.append(f'[{uname}] {pc.name} ({pc.origin}): contract ASSUMED, body not verified: ' + (pc.contract.get('assumed') or '; '.join(pc.contract.get('ensures') or [])) + (' -- ' + pc.contract['note'] if pc.contract.get('note') else ''))
                 continue
             nob = 1 if pc.kind == 'fn' else max(1, len(re.findall(r'\bproof fn\b', pc.text)))
             out.obligations += nob
